@@ -76,7 +76,8 @@ def sampler_configs(draw, classes=CLASSES, max_d=4, target_kinds=("gauss", "gaus
         lim = []
         if bounds != "never":
             for i in range(d):
-                lim.append(draw(st.sampled_from(["none", "none", "bounded", "nonneg"])))
+                # "both": declared non-negative AND given boundaries (whose lower end may be negative): support [max(lower, 0), upper]
+                lim.append(draw(st.sampled_from(["none", "none", "bounded", "nonneg", "both"])))
         cfg["limits"] = lim
         # the documented default proposal widths (5% of the start values) instead of explicit ones
         cfg["default_widths"] = draw(st.sampled_from([False, False, False, False, True]))
@@ -122,18 +123,33 @@ def start_of(cfg):
         x = np.clip(lo + (np.array(cfg["start_u"]) + 1) / 2 * (hi - lo), lo, hi)
     if cfg["cls"] in ("gibbs", "metropolis"):
         for i, kind in enumerate(cfg.get("limits", [])):
+            kind = limit_kind(cfg, i)
             if kind == "nonneg":
                 x[i] = abs(x[i])
-            elif kind == "bounded":
-                lo, hi = gibbs_interval(cfg, i)
+            elif kind in ("bounded", "both"):
+                lo, hi = support_interval(cfg, i)
                 x[i] = min(max(lo + (cfg["start_u"][i] + 1) / 2 * (hi - lo), lo), hi)
     return x
 
 
 def gibbs_interval(cfg, i):
+    """the boundaries declared with set_boundaries"""
     c, s = centre_scale(cfg)
     h = cfg["limit_half"][i] * s[i]
     return float(c[i] - 0.7 * h), float(c[i] + 1.3 * h)
+
+
+def limit_kind(cfg, i):
+    """'both' needs an upper boundary above zero to be a consistent declaration; otherwise the parameter is only bounded"""
+    kind = cfg["limits"][i]
+    if kind == "both" and gibbs_interval(cfg, i)[1] <= 0:
+        return "bounded"
+    return kind
+
+
+def support_interval(cfg, i):
+    lo, hi = gibbs_interval(cfg, i)
+    return (max(lo, 0.0), hi) if limit_kind(cfg, i) == "both" else (lo, hi)
 
 
 def widths_of(cfg):
@@ -164,10 +180,11 @@ def build(cfg, target=None, record=True):
         if cls in ("gibbs", "metropolis"):
             C = GibbsChain if cls == "gibbs" else MetropolisChain
             ch = C(posterior=tgt, start=start, widths=None if cfg.get("default_widths") else widths, temperature=cfg["T"], **kw)
-            for i, kind in enumerate(cfg.get("limits", [])):
-                if kind == "bounded":
+            for i in range(len(cfg.get("limits", []))):
+                kind = limit_kind(cfg, i)
+                if kind in ("bounded", "both"):
                     ch.set_boundaries(i, gibbs_interval(cfg, i))
-                elif kind == "nonneg":
+                if kind in ("nonneg", "both"):
                     ch.set_non_negative(i, True)
         elif cls == "pca":
             ch = PcaChain(posterior=tgt, start=start, widths=widths, temperature=cfg["T"], bounds=bounds_arg, **kw)
